@@ -53,6 +53,14 @@ type Contract struct {
 	Ghost    []string
 	NoBody   bool // contract only used at call sites (body not verified): trusted
 	Unproved map[string]string // site label -> reason (waivers)
+	Lets     map[string]ast.Expr
+}
+
+type Pred struct {
+	Name   string
+	Params []string
+	Body   ast.Expr
+	Text   string
 }
 
 type SpecSet struct {
@@ -60,6 +68,7 @@ type SpecSet struct {
 	Order     []string
 	Ghosts    map[string]*GhostDecl
 	Globals   []*Clause // global facts (assumed at function entry, checked nowhere: trusted)
+	Preds     map[string]*Pred
 	Errors    []string
 }
 
@@ -72,7 +81,7 @@ type GhostDecl struct {
 var clauseHead = regexp.MustCompile(`^(requires|ensures|assume|invariant|step|decreases)\s*(\[[^\]]*\])?\s*([A-Za-z_][A-Za-z0-9_\-]*)\s*:\s*(.*)$`)
 
 func newSpecSet() *SpecSet {
-	return &SpecSet{Contracts: map[string]*Contract{}, Ghosts: map[string]*GhostDecl{}}
+	return &SpecSet{Contracts: map[string]*Contract{}, Ghosts: map[string]*GhostDecl{}, Preds: map[string]*Pred{}}
 }
 
 // parseFile reads //@ contract blocks. In .gvc files the //@ prefix is optional.
@@ -88,9 +97,25 @@ func (ss *SpecSet) parseFile(path string, trusted bool, pkgName string) {
 	var cur *Contract
 	var lastClause *Clause
 	var pending *strings.Builder
+	var curPred *Pred
+	var curLet string
 	lineNo := 0
 	curAlt := ""
 	finish := func() {
+		if (curPred != nil || curLet != "") && pending != nil {
+			txt := strings.TrimSpace(pending.String())
+			e, err := parser.ParseExpr(txt)
+			if err != nil {
+				ss.Errors = append(ss.Errors, fmt.Sprintf("%s:%d: definition: %v", path, lineNo, err))
+			}
+			if curPred != nil {
+				curPred.Body, curPred.Text = e, txt
+			} else if cur != nil {
+				cur.Lets[curLet] = e
+			}
+			curPred, curLet, pending = nil, "", nil
+			return
+		}
 		if lastClause != nil && pending != nil {
 			txt := strings.TrimSpace(pending.String())
 			if i := strings.Index(txt, " because "); i >= 0 && lastClause.Kind == "assume" {
@@ -146,7 +171,7 @@ func (ss *SpecSet) parseFile(path string, trusted bool, pkgName string) {
 			case "funcfield":
 				full = "funcfield:" + key
 			}
-			cur = &Contract{Key: full, Kind: kind, Loops: map[int]*LoopSpec{}, Trusted: trusted, File: path, Line: lineNo, Unproved: map[string]string{}}
+			cur = &Contract{Key: full, Kind: kind, Loops: map[int]*LoopSpec{}, Trusted: trusted, File: path, Line: lineNo, Unproved: map[string]string{}, Lets: map[string]ast.Expr{}}
 			if _, dup := ss.Contracts[full]; dup {
 				ss.Errors = append(ss.Errors, fmt.Sprintf("%s:%d: duplicate contract %s", path, lineNo, full))
 			}
@@ -165,6 +190,24 @@ func (ss *SpecSet) parseFile(path string, trusted bool, pkgName string) {
 			}
 			name := strings.TrimSpace(rest[:i])
 			ss.Ghosts[name] = &GhostDecl{Name: name, Sort: strings.TrimSpace(rest[i+1:])}
+			continue
+		case "pred":
+			finish()
+			m := regexp.MustCompile(`^pred\s+([A-Za-z_][A-Za-z0-9_]*)\s*\(([^)]*)\)\s*=\s*(.*)$`).FindStringSubmatch(line)
+			if m == nil {
+				ss.Errors = append(ss.Errors, fmt.Sprintf("%s:%d: bad pred definition", path, lineNo))
+				continue
+			}
+			pr := &Pred{Name: m[1]}
+			for _, a := range strings.Split(m[2], ",") {
+				if a = strings.TrimSpace(a); a != "" {
+					pr.Params = append(pr.Params, a)
+				}
+			}
+			ss.Preds[pr.Name] = pr
+			curPred = pr
+			pending = &strings.Builder{}
+			pending.WriteString(m[3])
 			continue
 		case "global":
 			finish()
@@ -189,6 +232,17 @@ func (ss *SpecSet) parseFile(path string, trusted bool, pkgName string) {
 		case "props":
 			finish()
 			cur.Props = append(cur.Props, fields[1:]...)
+			continue
+		case "let":
+			finish()
+			m := regexp.MustCompile(`^let\s+([A-Za-z_][A-Za-z0-9_]*)\s*=\s*(.*)$`).FindStringSubmatch(line)
+			if m == nil {
+				ss.Errors = append(ss.Errors, fmt.Sprintf("%s:%d: bad let", path, lineNo))
+				continue
+			}
+			curLet = m[1]
+			pending = &strings.Builder{}
+			pending.WriteString(m[2])
 			continue
 		case "theory":
 			finish()
